@@ -33,7 +33,7 @@ PROPS = {
     },
     "C18": {
         "streams": streams(("ctxio", 4000, 100000), ("upgrade", 600, 20000), ("upgradebig", 16, 96), ("duplex", 12, 200), ("history", 8, 32)),
-        "rule": "(upgradebig) real client <-> real service, 1 MiB .. 16 MiB + 5 bytes of raw stream after the upgrade in either direction (sizes around 4 MiB and 16 MiB), compared by length and SHA-256; (upgrade) upgraded calls end to end: real Service handler reading through Call.Conn from a raw client that sends request frame and payload in one write; real Connection.Upgrade reading through the returned object from a raw server that sends reply frame and payload in one write; real client <-> real service with payload both ways; payload sizes 1..20000, read buffers 1..70000 (below/at/above the 4096-byte reader buffer); (ctxio) random byte streams (empty frames, frames > 4096 bytes, payload without NUL) x segmentations (one segment, byte-wise, at NULs, random) x interleavings of frame reads and raw reads of sizes 1..10000; non-trivial = at least 2 segments or 2 frames and at least one operation",
+        "rule": "(history) short fixed histories whose state must not outlive an operation: a Send given up on an unbuffered pipe followed by calls (the peer sees only the later calls), a connection closed with received but unread replies followed by a new connection that calls and upgrades, an interface registered between two serving runs on one Service under the same context (a call answered InterfaceNotFound before reaches it afterwards), a plain call after a `more` call answered to its end (the handler sees the flags of the call it handles); (upgradebig) real client <-> real service, 1 MiB .. 16 MiB + 5 bytes of raw stream after the upgrade in either direction (sizes around 4 MiB and 16 MiB), compared by length and SHA-256; (upgrade) upgraded calls end to end: real Service handler reading through Call.Conn from a raw client that sends request frame and payload in one write; real Connection.Upgrade reading through the returned object from a raw server that sends reply frame and payload in one write; real client <-> real service with payload both ways; payload sizes 1..20000, read buffers 1..70000 (below/at/above the 4096-byte reader buffer); (ctxio) random byte streams (empty frames, frames > 4096 bytes, payload without NUL) x segmentations (one segment, byte-wise, at NULs, random) x interleavings of frame reads and raw reads of sizes 1..10000; non-trivial = at least 2 segments or 2 frames and at least one operation",
         "trusted_base": [BUFIO_TB, "the go/ast extractor that reports which object each read primitive uses"],
         "assumptions": ["net.Conn.Read never returns (0, nil)"],
     },
@@ -45,7 +45,7 @@ PROPS = {
     },
     "C04": {
         "streams": conn_streams(3000, 60000, extra=[("reg", 1200, 20000), ("history", 8, 32)]),
-        "rule": "random registry (names that are prefixes/suffixes of each other, dotted, unicode) x method strings from a near-miss grammar; non-trivial = method string with at least 2 dots or a near miss of a registered name; plus registration histories on a real service over a socket (accepted, duplicate and refused-while-serving registrations) followed by a call to every name that was tried",
+        "rule": "(history) short fixed histories whose state must not outlive an operation: a Send given up on an unbuffered pipe followed by calls (the peer sees only the later calls), a connection closed with received but unread replies followed by a new connection that calls and upgrades, an interface registered between two serving runs on one Service under the same context (a call answered InterfaceNotFound before reaches it afterwards), a plain call after a `more` call answered to its end (the handler sees the flags of the call it handles); random registry (names that are prefixes/suffixes of each other, dotted, unicode) x method strings from a near-miss grammar; non-trivial = method string with at least 2 dots or a near miss of a registered name; plus registration histories on a real service over a socket (accepted, duplicate and refused-while-serving registrations) followed by a call to every name that was tried",
         "trusted_base": [JSON_TB],
         "assumptions": [],
     },
